@@ -35,7 +35,7 @@ def main(argv):
     if tier not in ("quick", "thorough"):
         tier = argv[1]
     chk = lib.Check(prop, tier, seed)
-    chk.proof = lib.proof_step(prop)
+    chk.proof = lib.proof_step(prop, tier)
     if chk.proof.get("ok"):
         mod.run(chk)
     return chk.finish()
